@@ -35,17 +35,25 @@ pub fn bin_sequences(wsize: usize, msize: usize, in_path: &str, out_path: &str, 
             let pbar_clone = pbar.clone();
 
             scope.spawn(move |_| {
+                #[cfg(feature = "verif_hooks")]
+                ktio::verif::emit("min.worker_start", &[]);
                 loop {
+                    #[cfg(feature = "verif_hooks")]
+                    ktio::verif::emit("min.before_take", &[]);
                     let record = {
                         total_records_clone.fetch_add(1, std::sync::atomic::Ordering::Relaxed);
                         records_arc_clone.lock().unwrap().next()
                     };
                     if let Some(record) = record {
+                        #[cfg(feature = "verif_hooks")]
+                        ktio::verif::emit("min.after_take", &[record.n as u64]);
                         let mgen = if wsize == 0 {
                             MinimiserGenerator::new(&record.seq, record.seq.len(), msize)
                         } else {
                             MinimiserGenerator::new(&record.seq, wsize, msize)
                         };
+                        #[cfg(feature = "verif_hooks")]
+                        ktio::verif::emit("min.before_push", &[record.n as u64]);
                         for (k, s, e) in mgen {
                             result_arc_clone
                                 .entry(numeric_to_kmer(k, msize))
@@ -62,6 +70,8 @@ pub fn bin_sequences(wsize: usize, msize: usize, in_path: &str, out_path: &str, 
                         }
                     } else {
                         // end of iteration
+                        #[cfg(feature = "verif_hooks")]
+                        ktio::verif::emit("min.worker_exit", &[]);
                         break;
                     }
                 }
@@ -110,12 +120,18 @@ pub fn seq_to_min(wsize: usize, msize: usize, in_path: &str, out_path: &str, thr
             let buff_clone = Arc::clone(&buff);
 
             scope.spawn(move |_| {
+                #[cfg(feature = "verif_hooks")]
+                ktio::verif::emit("min.worker_start", &[]);
                 loop {
+                    #[cfg(feature = "verif_hooks")]
+                    ktio::verif::emit("min.before_take", &[]);
                     let record = {
                         total_records_clone.fetch_add(1, std::sync::atomic::Ordering::Relaxed);
                         records_arc_clone.lock().unwrap().next()
                     };
                     if let Some(record) = record {
+                        #[cfg(feature = "verif_hooks")]
+                        ktio::verif::emit("min.after_take", &[record.n as u64]);
                         let mgen = if wsize == 0 {
                             MinimiserGenerator::new(&record.seq, record.seq.len(), msize)
                         } else {
@@ -128,6 +144,8 @@ pub fn seq_to_min(wsize: usize, msize: usize, in_path: &str, out_path: &str, thr
                             mins.push(format!("{}:{}-{}", numeric_to_kmer(k, msize), s, e));
                         }
                         mins.push("\n".to_string());
+                        #[cfg(feature = "verif_hooks")]
+                        ktio::verif::emit("min.before_write", &[record.n as u64]);
                         {
                             buff_clone
                                 .lock()
@@ -144,6 +162,8 @@ pub fn seq_to_min(wsize: usize, msize: usize, in_path: &str, out_path: &str, thr
                         }
                     } else {
                         // end of iteration
+                        #[cfg(feature = "verif_hooks")]
+                        ktio::verif::emit("min.worker_exit", &[]);
                         break;
                     }
                 }
